@@ -381,7 +381,13 @@ func checkOp(sub string, c opCase) *vk.Failure {
 		init = op.preload(x)
 	}
 	if op.recv != rNone {
-		x.recv = newReceiver(op.recv, state, rr, rc, upper, b, init)
+		r0 := rr
+		if op.anyShape && state == stRowView {
+			// a shorter unit-increment view: cloning must not grow it into the
+			// elements of the parent that follow it
+			r0 = max(1, rr-2)
+		}
+		x.recv = newReceiver(op.recv, state, r0, rc, upper, b, init)
 	}
 	expectPanic := (op.panics != nil && op.panics(x)) || (state == stWrong && !op.anyShape)
 	if expectPanic {
